@@ -173,7 +173,9 @@ func (s *settings) RegisterPattern(pattern name.Name, inMemorySwamp bool, closeA
 		// check if the pattern is already exist
 		if _, ok := s.patterns[pattern.Get()]; ok {
 			// check if the actual pattern setting is different from the new setting
-			if s.patterns[pattern.Get()].GetCloseAfterIdle() == time.Duration(closeAfterIdleSec)*time.Second &&
+			// (an in-memory registration of the same pattern is always replaced)
+			if s.patterns[pattern.Get()].GetSwampType() == setting.PermanentSwamp &&
+				s.patterns[pattern.Get()].GetCloseAfterIdle() == time.Duration(closeAfterIdleSec)*time.Second &&
 				(filesystemSettings != nil &&
 					(s.patterns[pattern.Get()].GetWriteInterval() == time.Duration(filesystemSettings.WriteIntervalSec)*time.Second &&
 						s.patterns[pattern.Get()].GetMaxFileSizeByte() == filesystemSettings.MaxFileSizeByte)) {
